@@ -26,6 +26,14 @@ def collections(rng, quick):
     for n in (17, 33, 40, 64, 100, 150, 300):
         for _ in range(4 if quick else 40):
             out.append(shaped(rng, n))
+    # exactly smallsort_threshold strings of a parameter set (4, 32, 64, 256; thorough also 1024): the driver forces that set, see drv_ps5.cpp
+    # one job of exactly 4096 strings (parameter set seqss4096): nested sequential sample sort levels above multikey quicksort, work given away at every level
+    for _ in range(8 if quick else 40):
+        out.append([[rng.choice((97, 98, 99, 100)) for _ in range(rng.randint(6, 15))] for _ in range(4096)])
+    for n in ((4, 32, 64, 128, 256) if quick else (4, 32, 64, 128, 256, 1024)):
+        for _ in range(3 if quick else 12):
+            out.append(shaped(rng, n))
+        out.append([[97 + (i * 7) % 3, 97 + (i * 5) % 2] + [rng.choice((97, 98))] * rng.randint(0, 9) for i in range(n)])
     # all equal / one bucket / two buckets: steps without children, buckets of size 0 and 1, splitters all equal
     for n in (5, 20, 70, 200):
         out.append([[97, 98]] * n)
@@ -105,7 +113,7 @@ def run(ctx):
     exe = build(ctx, "drv_ps5", [src] + libs + [VS], flags=SHIM + ["-DTLX_VERIF_HOOKS", "-DNDEBUG"])
     tr = ctx.path("ps5.ndjson")
     run_driver_sharded(ctx, exe, lines, tr, what="drv_ps5")
-    small = [ln for ln in lines if int(ln.split()[1]) <= 200]
+    small = [ln for ln in lines if int(ln.split()[1]) <= 300]
     exe_a = build(ctx, "drv_ps5_asan", [src] + libs + [VS], flags=SHIM + ["-fsanitize=address", "-DNDEBUG"])
     run_driver_sharded(ctx, exe_a, rng.sample(small, len(small) // (3 if quick else 1)), ctx.path("ps5_asan.ndjson"), what="drv_ps5(asan)", env={"ASAN_OPTIONS": "detect_leaks=0"})
     exe_t = build(ctx, "drv_ps5_tsan", [src] + libs, flags=["-include", "vsched/nosched.hpp", "-DNO_VSCHED", "-fsanitize=thread", "-g", "-DNDEBUG"])
